@@ -7,6 +7,8 @@
 #include <cerrno>
 #include <unistd.h>
 #include <sys/wait.h>
+#include <sys/prctl.h>
+#include <signal.h>
 #include <time.h>
 #include <limits.h>
 
@@ -225,7 +227,8 @@ namespace
     // per-process state in the code under test (a static buffer, a cached result) must neither be punished when it is
     // harmless nor leak from one simulated installation into the next: every group of steps with the same target is
     // executed in a forked child, which reports its violation or its digest, counters and abstract states through a pipe.
-    // A child that does not return within 20 s is killed and reported as a hang.
+    // A child that does not return within HANG_SECONDS is killed and reported as a hang.
+    const long HANG_SECONDS = 6;
     void write_all(int fd, const std::string& s) { size_t o = 0; while (o < s.size()) { ssize_t w = ::write(fd, s.data() + o, s.size() - o); if (w <= 0) break; o += static_cast<size_t>(w); } }
     void exec_plan(const Plan& plan, Run& run)
     {
@@ -241,6 +244,8 @@ namespace
             if (pid < 0) std::abort();
             if (pid == 0)
             {
+                prctl(PR_SET_PDEATHSIG, SIGKILL);      // never outlive the worker (a spinning orphan would also keep its stdout pipe open)
+                if (getppid() == 1) _exit(0);
                 close(fd[0]);
                 Stats& st = stats();
                 for (auto& v : st.values) v = 0;
@@ -271,7 +276,7 @@ namespace
                 pid_t r = waitpid(pid, &status, WNOHANG);
                 if (r == pid) { done = true; break; }
                 struct timespec t1; clock_gettime(CLOCK_MONOTONIC, &t1);
-                if (t1.tv_sec - t0.tv_sec > 20) { kill(pid, SIGKILL); waitpid(pid, &status, 0); hung = true; break; }
+                if (t1.tv_sec - t0.tv_sec > HANG_SECONDS) { kill(pid, SIGKILL); waitpid(pid, &status, 0); hung = true; break; }
                 struct timespec nap = {0, 200000}; nanosleep(&nap, nullptr);
             }
             if (done) { ssize_t n; while ((n = ::read(fd[0], buf, sizeof(buf))) > 0) in.append(buf, static_cast<size_t>(n)); }
@@ -279,7 +284,7 @@ namespace
             if (hung)
             {
                 run.step += 1;
-                fail("hang", std::string("C20/hang/") + op_name(plan.steps[first].op) + "/" + len_class(interp_len(plan.steps[first].a)), "executable_path()/prefix_path() did not return within 20 s");
+                fail("hang", std::string("C20/hang/") + op_name(plan.steps[first].op) + "/" + len_class(interp_len(plan.steps[first].a)), "executable_path()/prefix_path() did not return within " + std::to_string(HANG_SECONDS) + " s");
             }
             if (!WIFEXITED(status) || WEXITSTATUS(status) != 0)
             {
